@@ -7,7 +7,12 @@ from __future__ import annotations
 
 
 def vkey(v: str):
-    parts = [int(p) for p in str(v).split(".")]
+    try:
+        parts = [int(p) for p in str(v).split(".")]
+    except ValueError:
+        # a version with a pre-release / post-release / development / local / epoch part: this reference does not order those
+        # (the workloads give each of them a name of its own); equal spellings compare equal
+        return ("unordered", str(v).strip())
     while parts and parts[-1] == 0:
         parts.pop()
     return tuple(parts)
